@@ -649,8 +649,7 @@ TARGETS.append(dict(
     open="P0f P0f.Py", decorators=("classmethod",),
     pyparams=["cls", "raw_signature"], params=[("raw_signature", "List Char")], ret="Opt:Rec:Sig", lean_ret="Option Sig",
     env={"raw_signature": ("raw_signature", "Str")}, raises=RAISES_FIELD, lean_types={"Str": "List Char", "Rec:Sig": "Sig"},
-    calls={"split_parts": lambda fn, a, k, e: ("(splitParts ':' 8 " + par(fn.expr(a[0], e)[0]) + ")", "List:Str")
-           if len(a) == 1 and set(k) == {"parts"} and isinstance(k["parts"], ast.Constant) and k["parts"].value == 8 else (_ for _ in ()).throw(NotTranslatable("split_parts call shape")),
+    calls={"split_parts": lambda fn, a, k, e: _split_parts_call(fn, a, k, e),
            "_parse_ttl": opt_call("P0f.Gen.parseTtl", ["Str"], "Tuple:Int,Bool"),
            "_parse_window": opt_call("P0f.Gen.parseWindow", ["Str"], "Tuple:Enum:WinType,Int,Int"),
            "_parse_options": opt_call("P0f.Gen.parseOptionsField", ["Str"], "Tuple:List:Int,Int"),
@@ -658,6 +657,54 @@ TARGETS.append(dict(
            "OptionsSignature": tuple_ctor("layout", "mss", "eol_padding_length"),
            "cls": _sig_ctor},
     alias="def parseTcpSig (raw_signature : List Char) : Option Sig := P0f.parseTcpSig raw_signature\n",
+))
+
+def _split_parts_call(fn, a, k, e):
+    if len(a) == 1 and set(k) == {"parts"} and isinstance(k["parts"], ast.Constant) and isinstance(k["parts"].value, int):
+        x, tx = fn.expr(a[0], e)
+        if tx == "Str":
+            return (f"(splitParts ':' {k['parts'].value} {par(x)})", "List:Str")
+    raise NotTranslatable("split_parts call shape")
+
+
+# ---------------------------------------------------------------------------------------------- C15 / C09: labels, MTU signatures, section headers
+TARGETS.append(dict(
+    module="pyp0f.database.signatures.mtu", func="MTUSignature.parse", file="ParseMtuSig", lean="parseMtuSig", import_="P0f.Model.SigParse", open="P0f P0f.Py",
+    decorators=("classmethod",), pyparams=["cls", "raw_signature"], params=[("raw_signature", "List Char")], ret="Opt:Int", lean_ret="Option Int",
+    env={"raw_signature": ("raw_signature", "Str")}, raises=RAISES_FIELD, lean_types={"Str": "List Char"},
+    calls={"cls": lambda fn, a, k, e: (as_int(*fn.expr(a[0], e)), "Int") if len(a) == 1 and not k else (_ for _ in ()).throw(NotTranslatable("cls(...) shape"))},
+    alias="def parseMtuSig (raw_signature : List Char) : Option Int := (P0f.parseMtuSig raw_signature).map fun (n : Nat) => (n : Int)\n",
+))
+
+
+def _label_ctor(fn, args, kw, env):
+    if args or set(kw) != {"name", "is_generic", "os_class", "flavor"}:
+        raise NotTranslatable("Label(...) call shape")
+    v = {w: fn.expr(kw[w], env) for w in kw}
+    if [v[w][1] for w in ("name", "is_generic", "os_class", "flavor")] != ["Str", "Bool", "Str", "Str"]:
+        raise NotTranslatable("Label(...) argument types")
+    return ("{ generic := " + v["is_generic"][0] + ", osClass := " + v["os_class"][0] + ", name := " + v["name"][0] + ", flavor := " + v["flavor"][0] + " }", "Rec:LabelM")
+
+
+TARGETS.append(dict(
+    module="pyp0f.database.labels.label", func="Label.parse", file="ParseLabel", lean="parseLabel", import_="P0f.Model.SigParse", open="P0f P0f.Py",
+    decorators=("classmethod",), pyparams=["cls", "raw_label"], params=[("raw_label", "List Char")], ret="Opt:Rec:LabelM", lean_ret="Option LabelM",
+    env={"raw_label": ("raw_label", "Str")}, raises=RAISES_FIELD, lean_types={"Str": "List Char", "Rec:LabelM": "LabelM"},
+    calls={"split_parts": _split_parts_call, "cls": _label_ctor},
+    alias="def parseLabel (raw_label : List Char) : Option LabelM := P0f.parseLabel raw_label\n",
+))
+TARGETS.append(dict(
+    module="pyp0f.database.labels.label", func="Label.dump", file="DumpLabel", lean="dumpLabel", import_="P0f.Model.SigParse", open="P0f P0f.Py",
+    pyparams=["self"], params=[("l", "LabelM")], ret="Str", lean_ret="List Char",
+    env={"self.is_generic": ("l.generic", "Bool"), "self.os_class": ("l.osClass", "Str"), "self.name": ("l.name", "Str"), "self.flavor": ("l.flavor", "Str")},
+    lean_types={"Str": "List Char"},
+    alias="def dumpLabel (l : LabelM) : List Char := l.dump\n",
+))
+TARGETS.append(dict(
+    module="pyp0f.database.parse.parser", func="_parse_section", file="ParseSection", lean="parseSection", import_="P0f.Model.DbParse", open="P0f P0f.Py",
+    pyparams=["line"], params=[("line", "List Char")], ret="Opt:Tuple:Enum:RecKind,Opt:Enum:Dir", lean_ret="Option (RecKind × Option Dir)",
+    env={"line": ("line", "Str")}, raises=RAISES_FIELD, lean_types={"Str": "List Char"},
+    alias="def parseSection (line : List Char) : Option (RecKind × Option Dir) := (P0f.parseSection line).map fun s => (s.kind, s.dir)\n",
 ))
 
 for t in TARGETS:
